@@ -4,6 +4,7 @@ from ..unit import run_unit
 from .. import camp_props
 from ..units.loop import Loop
 from ..units.callbacks import CallbacksUnit
+from ..units.stepctl import StepCtl
 
 PROP_FILES = ["props/C12.v"]
 TECHNIQUE = "Coq proof (invariants by induction over arbitrary step-oracle traces) + exact differential correspondence of Solver.solve with a scripted step oracle"
@@ -11,7 +12,9 @@ TECHNIQUE = "Coq proof (invariants by induction over arbitrary step-oracle trace
 
 def run(rep, tier, seed, scratch):
     g = Gen(seed)
-    for u in (Loop(), CallbacksUnit()):
+    # StepCtl: the `accepted` flag a controller hands back is what the solver counts (a trial abandoned at the deadline
+    # is not an accepted step)
+    for u in (Loop(), CallbacksUnit(), StepCtl()):
         run_unit(rep, u, u.gen(g, tier), scratch)
     camp_props.run_single(rep, 'C12', tier, seed, 40, 300, allow={'collect_path': True})
     camp_props.run_single(rep, 'C12', tier, seed + 1, 16, 80, allow={'collect_path': True, 'iteration_limit': 400}, families=['line1'], name='collinear', scaling=False)
